@@ -30,7 +30,15 @@ def make_pair(sh, kind, log):
     if kind == 'func':
         exec('def real(%s):\n    _log.append(1)\ndef stub(%s):\n    return None\n' % (sig, sig), ns)
         return ns['real'], ns['stub']
+    if kind == 'wrapped':
+        # a decorator's wrapper (functools.wraps): its own signature is what a call binds against,
+        # although __wrapped__ points at a function with another signature (one more leading parameter)
+        exec('def real(%s):\n    _log.append(1)\ndef stub(%s):\n    return None\ndef inner(conn, %s):\n    _log.append(2)\n' % (sig, sig, sig), ns)
+        functools.update_wrapper(ns['real'], ns['inner'])
+        return ns['real'], ns['stub']
     ssig = ', '.join(['self'] + params)
+    if kind == 'pmethod':           # a bound method that is then wrapped in functools.partial (positional calls only)
+        kind = 'method'
     if kind == 'method':
         exec('class R:\n    def m(%s):\n        _log.append(1)\nclass S:\n    def m(%s):\n        return None\n' % (ssig, ssig), ns)
         return ns['R']().m, ns['S']().m
@@ -78,7 +86,7 @@ class Validate:
         args = tuple(ctx.atom(ArgSort, 'v') for _ in range(n))
         kwds = {}
         for nm in names:
-            if ctx.bool('kw_' + nm):
+            if cfg['kind'] != 'pmethod' and ctx.bool('kw_' + nm):
                 kwds[nm] = ctx.atom(ArgSort, 'w')
         try:
             stub(*args, **kwds)
@@ -149,11 +157,21 @@ def plan(prop, tier):
     shapes = quick_shapes() if q else all_shapes()
     cfgs = []
     for sh in shapes:
-        for kind in ('func', 'method', 'instance'):
+        for kind in ('func', 'method', 'instance', 'wrapped', 'pmethod'):
             if q and kind != 'func' and (sh['nkwo'] or sh['npos'] > 2):
                 continue
-            for part in (partials_for(sh, tier) if kind == 'func' else [None]):
-                if part and part[0] > sh['npos'] and not sh['varargs']:
+            if kind == 'pmethod' and (sh['nkwo'] or sh['varkw']):
+                continue
+            if kind == 'pmethod':
+                parts = [(k, []) for k in range(1, sh['npos'] + 2)]
+            elif kind in ('func', 'wrapped'):
+                parts = partials_for(sh, tier) if kind == 'func' else partials_for(sh, tier)[:3]
+            else:
+                parts = [None]
+            for part in parts:
+                if kind == 'pmethod' and part[0] > sh['npos'] and not sh['varargs']:
+                    pass            # over-filled partial of a bound method: every call must be rejected
+                elif part and part[0] > sh['npos'] and not sh['varargs']:
                     continue
                 cfgs.append({'name': 'validate/%s/%s/partial=%s' % (kind, shape_name(sh), part), 'shape': sh, 'kind': kind,
                              'partial': part, 'props': ['C19'], 'weight': 2 ** (sh['npos'] + sh['nkwo'])})
